@@ -44,9 +44,73 @@ def make_observer(withs):
     return ExactObserver(withs, suspended=True, running=False, direct=True)
 
 
+def deep_programs():
+    """Deeply nested blocks (CPython allows 20 statically nested blocks): (label, kind, src, withs)."""
+    out = []
+    for kind in ("coro", "gen", "agen"):
+        head = {"coro": "async def prog(rt):", "agen": "async def prog(rt):", "gen": "def prog(rt):"}[kind]
+        susp = {"coro": "await trap('body')", "agen": "yield 'body'", "gen": "yield 'body'"}[kind]
+        asyncs = kind != "gen"
+        for k in (6, 10, 11, 12, 15):
+            # one with statement, k items
+            lines = [head, "    z = None"]
+            withs = {}
+            is_a = asyncs
+            items = ", ".join("%s(rt, %d) as v%d" % ("AM" if is_a else "M", i, i) for i in range(1, k + 1))
+            lines.append("    %swith %s:" % ("async " if is_a else "", items))
+            for i in range(1, k + 1):
+                withs[i] = (3, "v%d" % i, is_a)
+            lines.append("        " + susp)
+            out.append(("items%d" % k, kind, "\n".join(lines) + "\n", withs))
+            # k nested statements, alternating sync / async where possible
+            lines = [head, "    z = None"]
+            withs = {}
+            ind = 1
+            for i in range(1, k + 1):
+                is_a = asyncs and i % 2 == 0
+                lines.append("    " * ind + "%swith %s(rt, %d) as v%d:" % ("async " if is_a else "", "AM" if is_a else "M", i, i))
+                withs[i] = (len(lines), "v%d" % i, is_a)
+                ind += 1
+            lines.append("    " * ind + susp)
+            out.append(("nested%d" % k, kind, "\n".join(lines) + "\n", withs))
+        for k in (3, 4, 5, 6):
+            # few managers, many try blocks in between: with / try-finally / try-except alternating, 3k levels
+            lines = [head, "    z = None"]
+            withs = {}
+            ind = 1
+            for i in range(1, k + 1):
+                is_a = asyncs and i % 2 == 1
+                lines.append("    " * ind + "%swith %s(rt, %d) as v%d:" % ("async " if is_a else "", "AM" if is_a else "M", i, i))
+                withs[i] = (len(lines), "v%d" % i, is_a)
+                ind += 1
+                lines.append("    " * ind + "try:")
+                ind += 1
+                lines.append("    " * ind + "try:")
+                ind += 1
+            lines.append("    " * ind + susp)
+            for i in range(k, 0, -1):
+                ind -= 1
+                lines.append("    " * ind + "except E:")
+                lines.append("    " * (ind + 1) + "rt.mark()")
+                ind -= 1
+                lines.append("    " * ind + "finally:")
+                lines.append("    " * (ind + 1) + "rt.mark()")
+                ind -= 1
+            out.append(("mixed%d" % k, kind, "\n".join(lines) + "\n", withs))
+    return out
+
+
 def run(ctx):
     from vlib.ctxobs import run_program
     p = params(ctx.tier)
+    for di, (label, kind, src, withs) in enumerate(deep_programs()):
+        if not ctx.mine(di):
+            continue
+        npaths, nobs = run_program(None, kind, ctx, make_observer, case_extra={"deep": label}, src_withs=(src, withs))
+        ctx.count("deep_programs")
+        ctx.count("distinct_nontrivial")
+        ctx.count("paths", npaths)
+        ctx.count("evaluations", nobs)
     g = ps.grammar(p["grammar"])
     idx = 0
     for body in ps.programs(g, p["size"], p["depth"]):
